@@ -224,6 +224,8 @@ def main():
             sets = [0b111111] + [quick_sets[(k + j) % len(quick_sets)] for j in range(0, 12, 3)]
         for bits in sets:
             items.append((t.to_json(), ("array", "scalar")[(k + bits) % 2], bits, args.seed + k, timeout))
+    for bits in (0b111111, 0b000011, 0b000001, 0b001010):
+        items.append((families.long_link().to_json(), "array", bits, args.seed, timeout))
     if args.thorough:
         for k, t in enumerate(families.E(3, 4)):
             items.append((t.to_json(), ("array", "scalar")[k % 2], 1 + (k * 7) % 63, args.seed + k, timeout))
